@@ -248,6 +248,10 @@ Do(st, op) ==
                     ELSE st.bufs IN
          Out([hs |-> [st.hs EXCEPT ![op.h] = src], bufs |-> bt], Res(c0, "ok", <<>>, ""))
 
+    [] op.op = "clone_ovf" ->   \* make_shallow_clone when the count is already above isize::MAX (injected through the hook):
+                                \* the increment is rolled back and the call panics; nothing else changes
+         Out(st, Res(c0, "panic", <<>>, "rcoverflow"))
+
     [] op.op = "clone_from" -> \* make_shallow_clone(source), then replace_inner on the target
          LET src == st.hs[op.g]
              bt  == IF src.k = "H" THEN [st.bufs EXCEPT ![src.id] = [st.bufs[src.id] EXCEPT !.rc = st.bufs[src.id].rc + 1]]
